@@ -757,7 +757,8 @@ class BasisSineDVR(BasisSet):
         return np.pi**2*np.arange(1,self.nbas+1)**2/self.L**2/2
 
     def copy(self, new_dof):
-        return self.__class__(new_dof, self.nbas, xi=self.xi, xf=self.xf)
+        return self.__class__(new_dof, self.nbas, xi=self.xi, xf=self.xf,
+                              quadrature=self.quadrature, dvr=self.dvr)
 
 
 class BasisMultiElectron(BasisSet):
@@ -934,7 +935,7 @@ class BasisSimpleElectron(BasisSet):
         return mat * op_factor
 
     def copy(self, new_dof):
-        return self.__class__(new_dof)
+        return self.__class__(new_dof, self.sigmaqn)
 
 
 class BasisHalfSpin(BasisSet):
@@ -1023,7 +1024,7 @@ class BasisDummy(BasisSet):
         return mat * op_factor
 
     def copy(self, new_dof):
-        return self.__class__(new_dof, self.sigmaqn)
+        return self.__class__(new_dof, self.nbas, self.sigmaqn)
 
 def x_power_k(k, m, n):
 # <m|x^k|n>, origin is 0
